@@ -399,7 +399,10 @@ func tsMenu(r *rng, root reflect.Type) (map[reflect.Type]*js.Schema, []reflect.T
 		case reflect.String:
 			i := r.intn(5)
 			s = []*js.Schema{{Type: "string", Enum: []any{"a", "ab", ""}}, {Enum: []any{"a", "é"}}, {}, {Types: []string{"string", "null"}}, {Type: "string", Title: "a named string"}}[i]
-			if i < 2 {
+			if r.chance(1, 3) {
+				// a type list with spare capacity (built by append): must not be written through
+				s = &js.Schema{Types: append(make([]string, 0, 8), "string", "integer")}
+			} else if i < 2 {
 				faithful = false
 			}
 		case reflect.Bool:
@@ -417,7 +420,9 @@ func tsMenu(r *rng, root reflect.Type) (map[reflect.Type]*js.Schema, []reflect.T
 		default:
 			i := r.intn(4)
 			s = []*js.Schema{{Type: "integer"}, {Type: "number"}, nil, {Type: "integer", Minimum: js.Ptr(0.0)}}[i]
-			if i == 3 {
+			if r.chance(1, 3) {
+				s = &js.Schema{Types: append(make([]string, 0, 8), "integer", "string")}
+			} else if i == 3 {
 				faithful = false
 			}
 		}
